@@ -15,6 +15,8 @@ Decided (structural, on the polymorphic MIR):
     trusted index & (SIZE-1) of the pre-increment index; stored value = returned head.
  F6 table coherence: on the submission path every descriptor field the driver follows (addr,len,flags,next) is
     copied from the shadow element to the device table.
+ F7 release relinks the freed chain to the previous free list (C03.E6).  F8 the submission form agrees with the capacity
+    test (C03.E3).  F9 every share/unshare receives the queue's one access-platform field (C04.P9).
 Not decided: acyclicity / disjointness of chains over unbounded histories (free-list shape).
 """
 from .common import *
